@@ -1985,6 +1985,9 @@ TARGETS = [
     Target("ecies", strat_ecies, run_ecies, _cfgs(), quick=2400, thorough=9000),
     Target("ecdh", strat_ecdh, run_ecdh, _cfgs(), quick=4000, thorough=20000),
     Target("ecmqv", strat_ecmqv, run_ecmqv, _cfgs(), quick=3000, thorough=12000),
+    # key agreement on the 381-bit curve in the quick tier as well (group order of odd bit length, other cofactor)
+    Target("ecdh-381", strat_ecdh, run_ecdh, {"quick": ["p381"], "thorough": ["p381"]}, quick=500, thorough=500),
+    Target("ecmqv-381", strat_ecmqv, run_ecmqv, {"quick": ["p381"], "thorough": ["p381"]}, quick=500, thorough=500),
     Target("sok", strat_sok, run_sok, _cfgs(), quick=900, thorough=3500),
     Target("ibe", strat_ibe, run_ibe, _cfgs(), quick=1500, thorough=6000),
     Target("bgn", strat_bgn, run_bgn, _cfgs(), quick=700, thorough=2800),
